@@ -10,6 +10,7 @@ import Babble.Props.C10
 import Babble.Props.C12
 import Babble.Props.C13
 import Babble.Props.C14
+import Babble.Props.C15
 import Babble.Props.C16
 import Babble.Props.C17
 import Babble.Props.C18
